@@ -184,6 +184,11 @@ example : (run 128 (some 4) true [.sendto 0 0 128 1, .sendto 0 0 129 2, .send 1 
             [.sap ⟨[.ldl 128 []], []⟩, .sap ⟨[.dlc dlc0 []], []⟩]).1.length = 6 := by decide
 example : ∃ b, Pdu.Impl.encode (.agf 0 0 [.ui 16 32 [1, 2, 3], .rr 17 33 1]) = .ok b ∧ b.length - 2 = 12 :=
   ⟨_, rfl, rfl⟩
+example : ∀ p ∈ [Pdu.SPdu.ui 16 32 [1, 2, 3], Pdu.SPdu.rr 17 33 1], Pdu.ValidS p := by
+  intro p hp; simp at hp; rcases hp with rfl | rfl <;> simp [Pdu.ValidS]
+example : (Frame.agf ([Pdu.SPdu.ui 16 32 [1, 2, 3], Pdu.SPdu.rr 17 33 1].map sizeOf)).info ≤ 128 := by decide
+/-- the predicates of `collect_encrypts_once` satisfy the hypotheses of `collect_preserves` -/
+example : Gen (Plain 128) (Sent 128 (some 4)) (DlcOk 128) (some 4) := gen_plain_sent 128 (some 4)
 example : HistOk 128 [.sap ⟨[.ldl 128 []], []⟩, .sap ⟨[.dlc dlc0 []], []⟩, .sd ⟨[], [], []⟩] := by
   constructor
   · intro e he; simp at he; rcases he with rfl | rfl | rfl <;> simp [EntOk, SockOk]
